@@ -22,7 +22,7 @@ META = {
         "state values of one machine are pairwise != (so the value->state map is injective)",
         "unmapped values are only written through the machine's setters (a direct write of garbage on the model is the user's fault)",
     ],
-    "must_observe": ["external_writes", "invalid_writes", "events_executed", "falsy_value_states"],
+    "must_observe": ["external_writes", "invalid_writes", "events_executed", "falsy_value_states", "writes_in_flight"],
     "shard_timeout": {"quick": 900, "thorough": 3400},
 }
 
@@ -127,11 +127,15 @@ def make_case(rng, i):
                               "value_expr": rng.choice(['"zz_unmapped"', "12345", "None", "('nope',)", "-99"])})
         steps.append(st)
     driver = rng.choice(["sync", "inloop"]) if spec["any_async"] else "sync"
+    # some callbacks write another valid value to the model field while their transition is in flight
+    for cid, cb in spec["cbs"].items():
+        if rng.random() < 0.06:
+            cb["script"]["write"] = rng.choice(sids)
     return {"scenario": Scenario(spec, steps, driver), "value_of": make_value_of(spec), "kind": kind, "shape": shape}
 
 
 def owns(rule, flags):
-    return rule.startswith("C10.")
+    return rule.startswith("C10.") or rule == "C11.resume-untouched"
 
 
 def classify(case, rule, detail, log, fault, ck):
